@@ -140,9 +140,10 @@ def mutationHandler (name : String) : Handler := fun j => do
   let c05 : Option String :=
     if implErr.isSome || !inputWF then none
     else match name with
-      | "mutAddNode" => if implRes then MutationSpec.addNodeRel weq g implG else none
-      | "mutAddLink" => if implRes then MutationSpec.addLinkRel weq g implG else none
-      | "mutConnectSensors" => MutationSpec.connectSensorsRel weq g implG implRes
+      | "mutAddNode" => if implRes then MutationSpec.addNodeRel weq g implG else MutationSpec.addNodeFalseRel weq g implG
+      | "mutAddLink" => if implRes then MutationSpec.addLinkRel weq g implG else MutationSpec.unchangedRel weq g implG
+      | "mutConnectSensors" => (MutationSpec.connectSensorsRel weq g implG implRes).orElse
+                                 (fun _ => if implRes then none else MutationSpec.unchangedRel weq g implG)
       | "mutToggleEnable" => (MutationSpec.paramOnlyRel g implG).orElse (fun _ => MutationSpec.toggleRel g implG)
       | "mutGeneReEnable" => (MutationSpec.paramOnlyRel g implG).orElse (fun _ => MutationSpec.reenableRel weq g implG)
       | _ => MutationSpec.paramOnlyRel g implG
